@@ -239,6 +239,9 @@ func (c *CFG) LastAssign(b *cfg.Block, obj types.Object) (rhs ast.Expr, idx int)
 		for i := len(b.Nodes) - 1; i >= 0; i-- {
 			switch s := b.Nodes[i].(type) {
 			case *ast.AssignStmt:
+				if inlinedAssign[s] {
+					continue // the helper's returns are the assignments
+				}
 				for li, l := range s.Lhs {
 					if IsObj(info, l, obj) {
 						if len(s.Rhs) == 1 {
